@@ -182,7 +182,7 @@ fn expand_line_to_toknes(line: &str,
     let linfo = parsers::parser_line::parse_line(line);
     let mut tokens = linfo.tokens;
     expand_args_in_tokens(&mut tokens, args);
-    shell::do_expansion(sh, &mut tokens);
+    shell::do_expansion_of_words(sh, &mut tokens);
     tokens
 }
 
